@@ -45,6 +45,11 @@ def run(ctx):
     _c03.r319(ctx, ctx.repo['core'], 'R11.14')
     _c03.r311(ctx, ctx.repo['core'], 'R11.15')    # levels decoded into the output mask become null flags in place
     r1116(ctx)
+    _c03.r32(ctx, ctx.repo['core'])               # each level stream decoded by the coding its page declares
+    from . import c01 as _c01b
+    _c01b.r125(ctx, 'R11.18')                      # which annotations convert in place (bit-packed booleans do not)
+    from . import append_route as _ar11
+    _ar11.mode_params_rule(ctx, 'R11.19')          # object columns cast to the fixed width / type they are stored as
     r1117(ctx)
     from . import c02 as _c02
     _c02.r211(ctx, 'R11.13')
